@@ -903,9 +903,9 @@ def get_admid(model: Model):
         admin = data[1]
         subject = data[2]
         if current_subject == subject:
-            if event == 1:
+            if event in (1, 4):
                 current_admin = admin
-            if event != 1:
+            else:
                 if current_admin is not None:
                     adm[i] = current_admin
         else:
